@@ -362,8 +362,8 @@ def metas_from_ops(ops):
             metas.append({"kind": "set_parent", "h": op["c"], "parent": op["parent"]})
         elif o == "remove_crate":
             metas.append({"kind": "remove_crate", "h": op["c"]})
-        elif o in ("add_track", "remove_track_from"):
-            metas.append({"kind": o, "c": op["c"], "t": op["t"]})
+        elif o in ("add_track", "add_track_via_id", "remove_track_from"):
+            metas.append({"kind": "add_track" if o.startswith("add_track") else o, "c": op["c"], "t": op["t"]})
         elif o == "clear_tracks":
             metas.append({"kind": o, "c": op["c"]})
         elif o == "remove_track":
